@@ -8,6 +8,7 @@ import (
 	"fmt"
 	"github.com/ochinchina/sipproxy/vrt/vnet"
 	"runtime/metrics"
+	"sort"
 	"strings"
 )
 
@@ -626,7 +627,14 @@ func c08Run(c *Ctx) {
 			}
 		}
 		// E4: size extremes
+		// (in sorted order: the cases are dealt to the workers by position, and every worker process would
+		// iterate the map in an order of its own - some extremes ran twice and others not at all until round 7)
+		var names []string
 		for name := range c08Extremes() {
+			names = append(names, name)
+		}
+		sort.Strings(names)
+		for _, name := range names {
 			do(c08Case{Kind: "extreme", Transport: tr, Name: name})
 		}
 		// E2: every single-byte substitution / insertion / deletion
